@@ -40,6 +40,14 @@ pub enum PathSeg {
     I(usize),
 }
 
+/// workload R: a value of a real derived type, as a pure function of (family, seed, size)
+#[derive(Clone, Debug, PartialEq, Eq, Serialize, Deserialize)]
+pub struct RealSpec {
+    pub family: String,
+    pub vseed: u64,
+    pub size: u32,
+}
+
 #[derive(Clone, Debug, PartialEq, Eq, Serialize, Deserialize)]
 pub struct Scenario {
     pub property: String,
@@ -57,6 +65,8 @@ pub struct Scenario {
     pub perms: Vec<Val>,
     /// restrict to these serializers / routes (empty = all); used by the minimiser
     pub only: Vec<String>,
+    #[serde(default)]
+    pub real: Option<RealSpec>,
 }
 
 impl Scenario {
@@ -74,6 +84,7 @@ impl Scenario {
             fault: FaultSpec::None,
             perms: Vec::new(),
             only: Vec::new(),
+            real: None,
         }
     }
     pub fn wants(&self, name: &str) -> bool {
